@@ -90,6 +90,29 @@ type JobConfiguration struct {
 	BatchSize   int                    `json:"batchSize"`
 }
 
+// storable returns the configuration as it is persisted. verifyErrorHandlers scales the retryDelay of reRun handlers
+// from seconds to nanoseconds in place; the stored definition keeps seconds, otherwise every restart (which adds all
+// stored jobs again) multiplies the stored delay once more.
+func (jobConfig *JobConfiguration) storable() *JobConfiguration {
+	c := *jobConfig
+	c.Triggers = make([]JobTrigger, len(jobConfig.Triggers))
+	for i, t := range jobConfig.Triggers {
+		c.Triggers[i] = t
+		if t.ErrorHandlers == nil {
+			continue
+		}
+		c.Triggers[i].ErrorHandlers = make(ErrorHandlers, len(t.ErrorHandlers))
+		for j, eh := range t.ErrorHandlers {
+			h := *eh
+			if h.Type == ErrorHandlerReRun {
+				h.RetryDelay = h.RetryDelay / int64(time.Second)
+			}
+			c.Triggers[i].ErrorHandlers[j] = &h
+		}
+	}
+	return &c
+}
+
 type ScheduleEntries struct {
 	Entries []ScheduleEntry `json:"entries"`
 }
@@ -177,7 +200,7 @@ func (s *Scheduler) AddJob(jobConfig *JobConfiguration) error {
 		return err
 	}
 
-	err = s.Store.StoreObject(server.JobConfigIndex, jobConfig.ID, jobConfig) // store it for the future
+	err = s.Store.StoreObject(server.JobConfigIndex, jobConfig.ID, jobConfig.storable()) // store it for the future
 	if err != nil {
 		return err
 	}
